@@ -290,8 +290,31 @@ def _natural(defs) -> Dict[str, Tuple[int, list]]:
     return nat
 
 
-def _parse_group(auto_pad: bool, defs, d: str):
+def _poison(defs):
+    """the same definition names with other layouts (every native width swapped), ending in a duplicate message id:
+    parsing it fails, which makes `parse()` call `clear()` — the parser object is then used again"""
+    swap = {1: 8, 2: 4, 4: 8, 8: 4}
+    out = []
+    for name, body, kind in defs:
+        if isinstance(body, str):
+            out.append((name, body, kind))
+        else:
+            out.append((name, [(k, (swap[w] if k == "n" else w), l) for k, w, l in body], kind))
+    return out
+
+
+def _parse_group(auto_pad: bool, defs, d: str, reuse: bool = False):
     P, p = _parser(auto_pad)
+    if reuse:
+        bad = os.path.join(d, "poison.yaml")
+        open(bad, "w").write(_yaml_of(_poison(defs)) + "  ZZ_DUP_A:\n    id: 4000\n    fields: null\n  ZZ_DUP_B:\n    id: 4000\n    fields: null\n"
+                             if any(k == "m" for _n, _b, k in defs) else
+                             _yaml_of(_poison(defs)) + "message_defs:\n  ZZ_DUP_A:\n    id: 4000\n    fields: null\n  ZZ_DUP_B:\n    id: 4000\n    fields: null\n")
+        try:
+            p.parse(bad)
+        except BaseException as e:  # noqa: BLE001  the failure is intended
+            if isinstance(e, (KeyboardInterrupt, SystemExit)):
+                raise
     path = os.path.join(d, "g.yaml")
     # struct_defs are parsed before message_defs: order the prefix the same way
     open(path, "w").write(_yaml_of(defs))
@@ -304,7 +327,7 @@ def _parse_group(auto_pad: bool, defs, d: str):
     return P, p, None
 
 
-def run_yaml_group(gid: str, auto_pad: bool, defs) -> List[Tuple[str, List[str]]]:
+def run_yaml_group(gid: str, auto_pad: bool, defs, reuse: bool = False) -> List[Tuple[str, List[str]]]:
     """Returns [(case id, protocol lines)] — one case per definition up to and including the first rejected one."""
     # the parser handles every struct_def of a file before any message_def
     defs = [x for x in defs if x[2] == "s"] + [x for x in defs if x[2] == "m"]
@@ -312,13 +335,13 @@ def run_yaml_group(gid: str, auto_pad: bool, defs) -> List[Tuple[str, List[str]]
     d = tempfile.mkdtemp(prefix="pyrtma_verif_lay_")
     old = os.getcwd()
     try:
-        P, p, err = _parse_group(auto_pad, defs, d)
+        P, p, err = _parse_group(auto_pad, defs, d, reuse)
         n_ok = len(defs)
         if p is None:
             # find the first definition the parser refuses: parse growing prefixes
             n_ok = 0
             for k in range(1, len(defs)):
-                P, pk, ek = _parse_group(auto_pad, defs[:k], d)
+                P, pk, ek = _parse_group(auto_pad, defs[:k], d, reuse)
                 if pk is None:
                     err = ek
                     break
